@@ -15,6 +15,9 @@ for p in props:
         na.append({'property_id': pid, 'reason': PENDING.get(pid, 'check under construction in this round: the Lean model and theorems for this property are not yet tied to the code, so nothing is claimed yet (DESIGN.md section 7 gives the plan)')})
         continue
     m = importlib.import_module('props.' + pid.lower())
+    if getattr(m, 'LEVEL_TEXT', '') == 'under construction' or not getattr(m, 'THEOREMS', []):
+        na.append({'property_id': pid, 'reason': 'check under construction in this round: model and correspondence exist, the theorems are not yet proved, so nothing is claimed yet (DESIGN.md section 7)'})
+        continue
     checks.append({
         'property_id': pid,
         'quick_cmd': './check %s --tier quick' % pid,
